@@ -341,3 +341,90 @@ func consumeAllowed(flowN int32, hasConn bool, connN int32, n int32, maxFrame in
 //@   loop 1 step int64(st.flow.n) == int64(atiter(st.flow.n)) + int64(growth)
 //@   assert at call add: $n == growth
 //@   noframe
+
+// ---------------------------------------------------------------------------
+// writesched.go: the per-stream FIFO (property C12)
+
+// wqOK / wqLen / wqAt: representation invariant and abstract view of a writeQueue: the sequence
+// currQueue[currPos:] followed by nextQueue.
+//
+//@ pure
+func wqOK(q *writeQueue) bool {
+	return 0 <= q.currPos && q.currPos <= len(q.currQueue) && len(q.currQueue) <= 1<<40 && len(q.nextQueue) <= 1<<40
+}
+
+//@ pure
+func wqLen(q *writeQueue) int { return len(q.currQueue) - q.currPos + len(q.nextQueue) }
+
+//@ pure
+func wqAt(q *writeQueue, k int) FrameWriteRequest {
+	if k < len(q.currQueue)-q.currPos {
+		return q.currQueue[q.currPos+k]
+	}
+	return q.nextQueue[k-(len(q.currQueue)-q.currPos)]
+}
+
+//@ func (*writeQueue).empty(q) (r)
+//@   requires q != nil
+//@   ensures  r <==> wqLen(q) == 0
+//@
+//@ func (*writeQueue).push(q, wr)
+//@   allocates
+//@   requires q != nil && wqOK(q) && len(q.nextQueue) < 1<<40 && (!samebase(q.currQueue, q.nextQueue) || (cap(q.currQueue) == 0 && cap(q.nextQueue) == 0))
+//@   ensures  wqOK(q) && q.currPos == old(q.currPos) && unchanged(q.currQueue) && len(q.nextQueue) == old(len(q.nextQueue)) + 1
+//@   ensures  q.nextQueue[old(len(q.nextQueue))] == wr
+//@   ensures  forall k int :: 0 <= k && k < old(len(q.nextQueue)) ==> q.nextQueue[k] == old(q.nextQueue[k])
+//@   ensures  forall k int :: 0 <= k && k < len(q.currQueue) ==> q.currQueue[k] == old(q.currQueue[k])
+//@   ensures  (!samebase(q.currQueue, q.nextQueue) || (cap(q.currQueue) == 0 && cap(q.nextQueue) == 0))
+//@   modifies q.nextQueue, elems(q.nextQueue)
+//@
+//@ func (*writeQueue).shift(q) (wr)
+//@   cases q.currPos >= len(q.currQueue)
+//@   requires q != nil && wqOK(q) && wqLen(q) > 0 && (!samebase(q.currQueue, q.nextQueue) || (cap(q.currQueue) == 0 && cap(q.nextQueue) == 0))
+//@   ensures  wqOK(q) && wqLen(q) == old(wqLen(q)) - 1 && wr == old(wqAt(q, 0))
+//@   ensures  old(q.currPos < len(q.currQueue)) ==> q.currPos == old(q.currPos) + 1 && unchanged(q.currQueue) && unchanged(q.nextQueue)
+//@   ensures  old(q.currPos < len(q.currQueue)) ==> (forall k int :: q.currPos <= k && k < len(q.currQueue) ==> q.currQueue[k] == old(q.currQueue[k]))
+//@   ensures  old(q.currPos < len(q.currQueue)) ==> (forall k int :: 0 <= k && k < len(q.nextQueue) ==> q.nextQueue[k] == old(q.nextQueue[k]))
+//@   ensures  old(q.currPos >= len(q.currQueue)) ==> q.currPos == 1 && len(q.nextQueue) == 0 && samebase(q.currQueue, old(q.nextQueue)) && len(q.currQueue) == old(len(q.nextQueue)) && startoff(q.currQueue) == old(startoff(q.nextQueue))
+//@   ensures  old(q.currPos >= len(q.currQueue)) ==> (forall k int :: 1 <= k && k < len(q.currQueue) ==> q.currQueue[k] == old(q.nextQueue[k]))
+//@   ensures  (!samebase(q.currQueue, q.nextQueue) || (cap(q.currQueue) == 0 && cap(q.nextQueue) == 0))
+//@   modifies *q, elems(q.currQueue), elems(q.nextQueue)
+
+// put recycles a queue: every slot is cleared and the queue is empty afterwards.
+//
+//@ func (*writeQueuePool).put(p, q)
+//@   allocates
+//@   requires p != nil && q != nil
+//@   ensures  len(q.currQueue) == 0 && len(q.nextQueue) == 0 && q.currPos == 0
+//@   loop 1 invariant -1 <= rangeindex && rangeindex < len(q.currQueue)
+//@   loop 1 modifies elems(q.currQueue)
+//@   loop 2 invariant -1 <= rangeindex && rangeindex < len(q.nextQueue)
+//@   loop 2 modifies elems(q.nextQueue)
+//@   modifies *p, *q, elems(q.currQueue), elems(q.nextQueue), elems(*p)
+
+// ---------------------------------------------------------------------------
+// writesched_priority_rfc7540.go: closing a stream discards its queued frames (C12)
+
+// Trusted contracts (assumed, listed in the evidence): tree bookkeeping of the RFC 7540 scheduler;
+// none of these touches the write queue of any node.
+//
+//@ func (*priorityNodeRFC7540).addBytes(n, b)
+//@   trusted
+//@   modifies priorityNodeRFC7540.bytes, priorityNodeRFC7540.subtreeBytes
+//@ func (*priorityWriteSchedulerRFC7540).addClosedOrIdleNode(ws, list, maxSize, n)
+//@   trusted
+//@   allocates
+//@   modifies *ws, priorityNodeRFC7540.parent, priorityNodeRFC7540.kids, priorityNodeRFC7540.prev, priorityNodeRFC7540.next
+//@ func (*priorityWriteSchedulerRFC7540).removeNode(ws, n)
+//@   trusted
+//@   modifies *ws, priorityNodeRFC7540.parent, priorityNodeRFC7540.kids, priorityNodeRFC7540.prev, priorityNodeRFC7540.next
+
+// CloseStream: afterwards the closed node, which may stay in the priority tree, holds no frames:
+// Pop can never be handed a request from a closed stream.
+//
+//@ func (*priorityWriteSchedulerRFC7540).CloseStream(ws, streamID)
+//@   requires ws != nil && streamID != 0 && ws.nodes[streamID] != nil && ws.nodes[streamID].state == priorityNodeOpenRFC7540
+//@   requires ws.nodes[streamID] != &ws.root
+//@   ensures  wqLen(&old(ws.nodes[streamID]).q) == 0
+//@   ensures  old(ws.nodes[streamID]).state == priorityNodeClosedRFC7540
+//@   noframe
